@@ -180,6 +180,21 @@ func (op _OpcodeType) decodeI(x uint32) (as abi.As, arg *abi.AsArgument, argRaw 
 	for i, ctx := range _AOpContextTable {
 		if ctx.Opcode == op {
 			if ctx.Funct3 == funct3 {
+				if ctx.HasShamt {
+					// SLLI/SRLI/SRAI(W): imm[11:6] is funct6 (imm[5] is shamt[5] on RV64)
+					if uint32(imm>>5)&0b_111_1110 != ctx.Funct7&0b_111_1110 {
+						continue
+					}
+					arg.Imm = imm & 0b_11_1111
+					argRaw.Imm = arg.Imm
+				}
+				if op == _OpBase_SYSTEM && funct3 == 0 {
+					// ECALL: imm=0, EBREAK: imm=1
+					if (abi.As(i) == AECALL && imm != 0) || (abi.As(i) == AEBREAK && imm != 1) {
+						continue
+					}
+					arg.Imm, argRaw.Imm = 0, 0
+				}
 				as = abi.As(i)
 				break
 			}
@@ -250,11 +265,11 @@ func (op _OpcodeType) decodeB(x uint32) (as abi.As, arg *abi.AsArgument, argRaw 
 	rs1 := (x >> 15) & 0b_1_1111
 	rs2 := (x >> 20) & 0b_1_1111
 
-	imm12 := x & (1 << 31)
+	imm12 := (x >> 31) << 12
 	imm5_10 := ((x >> 25) & 0b_11_1111) << 5
 	imm1_4 := ((x >> 8) & 0b_1111) << 1
 	imm11 := ((x >> 7) & 0b_1) << 11
-	imm := int32(imm12 | imm11 | imm5_10 | imm1_4)
+	imm := int32(imm12|imm11|imm5_10|imm1_4) << 19 >> 19 // sign-extend from bit 12
 
 	funct3 := (x >> 12) & 0b_111
 
